@@ -9,6 +9,7 @@ package c18
 import (
 	"context"
 	"fmt"
+	"net"
 	"os"
 	"sort"
 	"strings"
@@ -59,9 +60,12 @@ type authCase struct {
 	NullMsg      bool   `json:"null_msg,omitempty"` // failed rounds are answered with a null error message
 	// HideHandshake (Transport entries): the brokers do not list SaslHandshake in their ApiVersions answer (they serve it
 	// all the same): a configured mechanism is used whatever the broker lists
-	HideHandshake bool  `json:"hide_handshake,omitempty"`
-	First         int64 `json:"first"` // log start of partition 1
-	Last          int64 `json:"last"`  // log end of partition 1
+	HideHandshake bool `json:"hide_handshake,omitempty"`
+	// NamedPort (entries dial, dialleader): the address names its port as a service ("b1.fake:kafka"), which dial functions
+	// and resolvers accept.  Whether such a dial succeeds is the library's choice; what reaches the broker on it is not.
+	NamedPort bool  `json:"named_port,omitempty"`
+	First     int64 `json:"first"` // log start of partition 1
+	Last      int64 `json:"last"`  // log end of partition 1
 }
 
 const topic = "t"
@@ -288,7 +292,7 @@ func run(tb ev.TB, c authCase) {
 
 	// ---- (2) a failed exchange closes the connection(s), without help from the application
 	closedImmediately := false
-	if failed && expectFailure {
+	if failed && (expectFailure || c.NamedPort) {
 		late, ok := waitAllClientClosed(nw, 2*time.Second, 8*time.Second)
 		closedImmediately = ok && !late
 		switch {
@@ -405,6 +409,11 @@ func run(tb ev.TB, c authCase) {
 	}
 
 	// ---- (3) completes <=> credentials right and server signature verifies
+	if c.NamedPort && failed && !expectFailure && len(cl.AuthEvents()) == 0 {
+		// the library refused the address before any exchange: nothing was sent (rules 1, 2, 4 above), nothing to complete
+		ev.Case(fmt.Sprintf("%+v", c), false, "named_port_refused", "entry_"+c.Entry, "mech_"+c.Mech)
+		return
+	}
 	switch {
 	case expectFailure && !failed:
 		ev.Fail(tb, "auth", "c18/no-error/"+c.Fault+"/"+family(c.Entry), c, "%s: the exchange was made to fail (%s at step %d) but %s returned no error\n%s",
@@ -475,10 +484,17 @@ func isTimeout(err error) bool {
 func call(c authCase, nw *memnet.Network, cl *fakecluster.Cluster, mech sasl.Mechanism, cleanup *[]func()) (res result) {
 	ctx, cancel := context.WithTimeout(context.Background(), callTimeout)
 	defer cancel()
-	const bootstrap = "b1.fake:9092"
+	bootstrap := "b1.fake:9092"
+	dialFn := nw.Dial
+	if c.NamedPort {
+		bootstrap = "b1.fake:kafka"
+		dialFn = func(ctx context.Context, network, address string) (net.Conn, error) {
+			return nw.Dial(ctx, network, strings.Replace(address, ":kafka", ":9092", 1))
+		}
+	}
 	switch c.Entry {
 	case "dial":
-		d := &kafka.Dialer{DialFunc: nw.Dial, SASLMechanism: mech, Timeout: callTimeout, ClientID: "c18"}
+		d := &kafka.Dialer{DialFunc: dialFn, SASLMechanism: mech, Timeout: callTimeout, ClientID: "c18"}
 		conn, err := d.DialContext(ctx, "tcp", bootstrap)
 		if err != nil {
 			res.dialErr = err
@@ -496,7 +512,7 @@ func call(c authCase, nw *memnet.Network, cl *fakecluster.Cluster, mech sasl.Mec
 			res.wrong = fmt.Sprintf("ReadPartitions returned %+v; the topic has partitions 0 (leader 1, b1.fake) and 1 (leader 2, b2.fake)", ps)
 		}
 	case "dialleader":
-		d := &kafka.Dialer{DialFunc: nw.Dial, SASLMechanism: mech, Timeout: callTimeout, ClientID: "c18"}
+		d := &kafka.Dialer{DialFunc: dialFn, SASLMechanism: mech, Timeout: callTimeout, ClientID: "c18"}
 		conn, err := d.DialLeader(ctx, "tcp", bootstrap, topic, 1)
 		if err != nil {
 			res.dialErr = err
@@ -920,6 +936,7 @@ func TestGenerated(t *testing.T) {
 		}
 		c.First = int64(rapid.IntRange(0, 50).Draw(t, "first"))
 		c.Last = c.First + int64(rapid.IntRange(0, 50).Draw(t, "span"))
+		c.NamedPort = (co.Entry == "dial" || co.Entry == "dialleader") && rapid.IntRange(0, 4).Draw(t, "namedPort") == 0
 		run(t, c)
 	})
 }
